@@ -96,6 +96,9 @@ def plan(r, fmt, ntok, nchar, kinds=None):
             return [{"f": "dangling_swap", "n": r.randint(0, 50), "m": r.randint(0, 50), "how": r.choice(["library", "cell"])}]
         return [{"f": k, "n": r.randint(0, 50), "which": r.choice(EDIF_REFS)}]
     if k == "unsupported":
+        if r.random() < 0.3:
+            # an unsupported FORM of a supported construct: the array-member form of an instance reference
+            return [{"f": "unsupported_member", "n": r.randint(0, 200), "idx": r.choice([0, 0, 1, 3])}]
         return [{"f": k, "n": r.randint(0, 50), "what": r.randrange(len(EDIF_UNSUPPORTED))}]
     return [{"f": "read_error", "at": r.randint(1, 6)}]
 
@@ -196,6 +199,14 @@ def apply(fmt, text, plan_items):
                 toks[pos] = new_name
                 changed = True
                 facts["applied"].append(what)
+                facts["must_raise"] = True
+        elif f == "unsupported_member" and fmt == "edf":
+            pos = [i for i, t in enumerate(toks[:-1]) if t.lower() == "instanceref" and toks[i + 1] not in ("(", ")")]
+            if pos:
+                k = pos[it["n"] % len(pos)]
+                toks[k + 1:k + 2] = ["(", "member", toks[k + 1], str(it["idx"]), ")"]
+                changed = True
+                facts["applied"].append("unsupported")
                 facts["must_raise"] = True
         elif f == "unsupported" and fmt == "edf":
             # insert an unsupported construct right after an "(interface" or "(contents" or "(cell ... (view"
